@@ -655,6 +655,9 @@ class ConstructTVUnit:
                         r.obligations += 1
                         r.queries += 2
                         r.extra["programs"] = r.extra.get("programs", 0) + 1
+                        if x.get("minmax_commuted"):
+                            # exact FP query undecided; decided with min/max read as commutative (sign of a zero result exempt)
+                            r.extra["decided_with_minmax_commutative"] = r.extra.get("decided_with_minmax_commutative", 0) + 1
                         if x["status"] == "unsat" and not x["problems"]:
                             r.discharged += 1
                             if x.get("premise_sat") and rec["expr"] != rec["graph"]:
